@@ -1,22 +1,25 @@
 #!/bin/sh
 # usage: tools/run_seeded.sh <seeded-id>...   (default: all)
-# Applies each seeded change to /repo, runs the verifier on the functions the patch touches
-# (hunk headers), undoes the change, and prints whether the change was detected.
+# Applies each seeded change to a scratch worktree of /repo's HEAD (under /tmp, removed
+# afterwards; /repo itself is never modified), runs the verifier on the functions the patch
+# touches (hunk headers), and prints whether the change was detected.
 export GOFLAGS=-mod=mod GOPROXY=off GOSUMDB=off GOTOOLCHAIN=local
 cd /verif || exit 2
 ids="$@"; [ -z "$ids" ] && ids=$(ls seeded)
+wt=/tmp/seedwt.$$
+git -C /repo worktree add -q --detach $wt HEAD || exit 2
+trap 'git -C /repo worktree remove --force '$wt' 2>/dev/null' EXIT INT TERM
 for id in $ids; do
   p=seeded/$id/patch.diff
   [ -f "$p" ] || continue
-  if ! git -C /repo diff --quiet; then echo "/repo has uncommitted tracked changes; refusing"; exit 2; fi
   funcs=$( (grep -o '^@@.*@@ func [^{]*' $p | sed -E 's/^@@.*@@ func (\([^)]*\) )?([A-Za-z0-9_]+).*/\2/'; grep -E '^[ +-]func ' $p | sed -E 's/^[ +-]func (\([^)]*\) )?([A-Za-z0-9_]+).*/\2/') | sort -u)
-  git -C /repo apply /verif/$p || { echo "$id: patch does not apply"; continue; }
+  git -C $wt apply /verif/$p || { echo "$id: patch does not apply"; continue; }
   res=""
   for f in $funcs; do
-    out=$(./bin/govc verify -func ".$f" 2>&1 | grep -E "FAILED|OUTSIDE|^    failed " | head -3 | cut -c1-160)
+    out=$(./bin/govc verify -repo $wt -func ".$f" 2>&1 | grep -E "FAILED|OUTSIDE|^    failed |VACUITY" | head -3 | cut -c1-160)
     [ -n "$out" ] && res="$res
 $out"
   done
-  git -C /repo checkout -- .
+  git -C $wt checkout -q -- . ; git -C $wt clean -fdq
   if [ -n "$res" ]; then echo "$id: DETECTED (functions: $(echo $funcs))$res"; else echo "$id: MISSED (functions: $(echo $funcs))"; fi
 done
